@@ -20,6 +20,9 @@ RULE = (
     "equal b, and relate to a fresh build of its old recipe as b does); non-trivial = "
     "pair that compares equal through two distinct builds, or a mutant pair; distinct = canon(case)"
 )
+RULE += (
+    " Mode 'positions': variants of one titled object schema (plain, + trivial composition + default, + default, + description, + keyword) at 2-3 positions of one document; the element at each position must equal, and behave like, an independent parse of its own sub-schema."
+)
 ASSUMPTIONS = [
     "alpha() inlines #/definitions refs and drops class-name-derived titles: equality ignores class names by design and a title is an annotation",
     "JSON comparison is type-faithful (true != 1, 1 == 1.0)",
@@ -27,6 +30,9 @@ ASSUMPTIONS = [
 BUDGET = {"quick": 600, "thorough": 6000}
 
 observe.register_formats()
+
+
+BIG_NUMBERS = [2 ** 53 + 1, 2 ** 53 + 2, 3 * 2 ** 60, 3 * 2 ** 60 + 1, 2 ** 64, 5 * 2 ** 55, 15 * 2 ** 52 + 1, 10 ** 18 + 3]
 
 
 @st.composite
@@ -74,6 +80,9 @@ def cases(draw):
         case["b"] = mutant
         case["mutation"] = op
         values += draw(values_for(R.to_schema(mutant), 3, 5))
+    if "multipleOf" in canon(schema_a) and draw(st.booleans()):
+        # 2 == 2.0 makes elements equal: they must then agree beyond float precision too
+        values += draw(st.lists(st.sampled_from(BIG_NUMBERS), min_size=1, max_size=3))
     case["values"] = values
     return case
 
@@ -153,7 +162,102 @@ def build_pair(case):
     return a, b
 
 
+@st.composite
+def position_cases(draw):
+    """One document holding VARIANTS of one titled object schema at several positions (the parser shares a class
+    between equal same-titled object schemas): each position's element must still equal an independent parse of
+    its own sub-schema, and positions that compare equal must mean the same."""
+    title = draw(st.sampled_from(["Address", "my thing"]))
+    base = {"type": "object", "title": title,
+            "properties": {draw(st.sampled_from(["street", "class", "a-b"])): {"type": "string"}}}
+    if draw(st.booleans()):
+        base["required"] = sorted(base["properties"])
+    if draw(st.integers(0, 2)) == 0:
+        base["additionalProperties"] = False
+    trivial = st.sampled_from([{"allOf": [{}]}, {"anyOf": [{"title": "x"}]}, {"oneOf": [True]}, {"allOf": [{}, True]},
+                               {"anyOf": [{}], "allOf": [{"description": "d"}]}])
+    default = st.sampled_from([{}, {"street": "x"}, None, 0, False])
+
+    def variant():
+        v = copy.deepcopy(base)
+        form = draw(st.sampled_from(["plain", "plain", "trivial+default", "trivial+default", "default", "trivial",
+                                     "description", "keyword", "nontrivial-composition"]))
+        if form in ("trivial+default", "trivial"):
+            v.update(copy.deepcopy(draw(trivial)))
+        if form in ("trivial+default", "default"):
+            v["default"] = draw(default)
+        if form == "description":
+            v["description"] = draw(st.sampled_from(["d", "another"]))
+        if form == "keyword":
+            v["minProperties"] = 1
+        if form == "nontrivial-composition":
+            v["anyOf"] = [{"minProperties": 1}, {"type": "null"}]
+            if draw(st.booleans()):
+                v["default"] = draw(default)
+        return form, v
+
+    forms, variants = zip(*[variant() for _ in range(draw(st.integers(2, 3)))])
+    props = {}
+    for i, v in enumerate(variants):
+        where = draw(st.sampled_from(["prop", "prop", "items", "tuple"]))
+        props["p%d" % i] = {"prop": v, "items": {"type": "array", "items": v},
+                           "tuple": {"type": "array", "items": [{"type": "null"}, v]}}[where]
+    doc = {"type": "object", "title": "Root", "properties": props}
+    values = [{}, {"street": "s"}, {"class": "c"}, {"a-b": "x"}, {"street": 1}, {"zz": 1}, None, 5]
+    return {"mode": "positions", "document": doc, "forms": list(forms), "values": values,
+            "pipeline": draw(st.sampled_from(observe.PIPELINES))}
+
+
+def _at(el, sub):
+    """The element standing for the variant inside its holder property."""
+    if sub.get("type") == "array":
+        items = el.items
+        return items[1] if isinstance(items, list) else items
+    return el
+
+
+def positions_predicate(case, stats):
+    doc = case["document"]
+    parsed = observe.safe_parse(doc, case.get("pipeline"))
+    if parsed[0] != "ok":
+        stats.case(canon(case), False, ["parse-refused"])
+        return [{"sub": "parse", "kind": "parse-refused:" + str(parsed[1]), "detail": list(map(str, parsed))[:3]}]
+    root = parsed[1]
+    fails = []
+    by_source = {(p.source if p.source is not None else n): p for n, p in root.properties.items()}
+    found = []
+    for name, sub in doc["properties"].items():
+        variant = sub["items"][1] if isinstance(sub.get("items"), list) else sub.get("items", sub) if sub.get("type") == "array" else sub
+        el = _at(by_source[name].element, sub)
+        alone = observe.safe_parse(variant)  # an independent parse of exactly this sub-schema (plain call)
+        if alone[0] != "ok":
+            continue
+        found.append((name, variant, el, alone[1]))
+        try:
+            same = (el == alone[1]) and (alone[1] == el)
+        except Exception as exc:  # noqa: BLE001
+            fails.append({"sub": "eq", "kind": "eq-raised:" + type(exc).__name__})
+            continue
+        if not same:
+            fails.append({"sub": "positions", "kind": "position-unequal-to-independent-parse-of-its-schema",
+                          "position": name, "in_document": repr(el)[:200], "alone": repr(alone[1])[:200],
+                          "default_in_document": repr(getattr(el, "default", None))[:60],
+                          "default_alone": repr(getattr(alone[1], "default", None))[:60]})
+            continue
+        for value in case["values"]:
+            va, vb = observe.verdict(el, value), observe.verdict(alone[1], value)
+            if va[0] != vb[0] or (va[0] == "ok" and not observe.plain_eq(observe.plain(va[1]), observe.plain(vb[1]))):
+                fails.append({"sub": "positions", "kind": "position-behaves-unlike-independent-parse", "position": name,
+                              "value": value, "detail": [str(va[0]), str(vb[0])]})
+                break
+    stats.case(canon(case), len(found) >= 2, ["mode:positions"] + ["form:" + f for f in set(case["forms"])],
+               sample={"document": doc})
+    return fails
+
+
 def predicate(case, stats):
+    if case.get("mode") == "positions":
+        return positions_predicate(case, stats)
     a, b = build_pair(case)
     fails = []
     if b is None:
@@ -234,4 +338,5 @@ replay_predicate = predicate
 
 
 def run_shard(ctx, stats):
-    return runner.hyp_run(ctx, stats, cases(), predicate, BUDGET[ctx.tier])
+    strat = st.one_of(cases(), cases(), cases(), cases(), cases(), position_cases())
+    return runner.hyp_run(ctx, stats, strat, predicate, BUDGET[ctx.tier])
